@@ -10,10 +10,14 @@ use std::sync::atomic::{AtomicUsize, Ordering};
 /// when we need to grow it. This should be a multiple of the page size (4096)
 // While debugging, we like to use a small value to increase the frequency of
 // resizing, to help detect if there are problems in the algorithm.
-#[cfg(debug_assertions)]
+#[cfg(all(debug_assertions, not(mikedilger_pocket_verif)))]
 const EVENT_MAP_CHUNK: usize = 2048;
-#[cfg(not(debug_assertions))]
+#[cfg(all(not(debug_assertions), not(mikedilger_pocket_verif)))]
 const EVENT_MAP_CHUNK: usize = 4096 * 1024; // grow by 4 megabytes at a time
+// Verification hook (see /verif): a model checker represents the mapped file as a byte
+// array, so it needs a small chunk. Never set in normal builds.
+#[cfg(mikedilger_pocket_verif)]
+const EVENT_MAP_CHUNK: usize = 256;
 
 /// An EventStore is a fast storage facility for events.
 #[derive(Debug)]
